@@ -7,11 +7,11 @@
 From Coq Require Import ZArith NArith List Bool Lia PeanoNat.
 From RV Require Import Model.Common Model.Real32 Model.Num Model.Datum Model.Lexer Model.Reader Model.Macro
   Model.Ast Model.Transform Model.Value Model.Equal Model.Print Model.Builtins Model.Eval Model.Interp
-  Spec.EvalSpec Spec.ListSpec Gen.GrammarSld Gen.BaseSld Gen.WriteSld Proofs.Basics Proofs.EvalProofs Proofs.FuelProofs Proofs.DerivedProofs Proofs.LibBase.
+  Spec.EvalSpec Spec.ListSpec Gen.GrammarSld Gen.BaseSld Gen.WriteSld Gen.NativeNames Proofs.Basics Proofs.EvalProofs Proofs.FuelProofs Proofs.DerivedProofs Proofs.LibBase.
 Import ListNotations.
 
 Definition boot : option (instance * state) :=
-  match new_instance base_sld_text write_sld_text empty_state G with
+  match new_instance base_sld_text write_sld_text native_base_names native_write_names empty_state G with
   | (Ok i, st, syn) =>
       match import_stdlib [] [] {| c_inst := i; c_st := st; c_syn := syn |} with
       | (Ok _, c) => Some (c_inst c, c_st c)
